@@ -24,6 +24,7 @@ import (
 	"com.tuntun.rangers/node/src/common"
 	"com.tuntun.rangers/node/src/common/sha3"
 	"com.tuntun.rangers/node/src/middleware/db"
+	"com.tuntun.rangers/node/src/storage/rlp"
 	"com.tuntun.rangers/node/src/storage/trie"
 	"com.tuntun.rangers/node/src/utility"
 	"verif/harness/hx"
@@ -36,6 +37,7 @@ type impl struct {
 	t      *trie.Trie
 	limit  uint16
 	snaps  []*trie.Trie // retained trie objects (op snap): must keep reading their own content
+	lastRoot string     // last root hash the implementation reported (for updroot / noderoot)
 }
 
 func newImpl() *impl {
@@ -68,8 +70,32 @@ func (m *impl) reopen(root common.Hash) string {
 	return hx.Hex(root[:])
 }
 
+func xorDigest(keys [][]byte) string {
+	acc := []byte{}
+	for _, k := range keys {
+		for len(acc) < len(k) {
+			acc = append(acc, 0)
+		}
+		for i := range k {
+			acc[i] ^= k[i]
+		}
+	}
+	return strconv.Itoa(len(keys)) + ":" + hx.Hex(acc)
+}
+
 // exec runs one op line against the implementation and returns the protocol answer.
 func (m *impl) exec(line string) string {
+	res := m.exec1(line)
+	if len(res) == 64 && !strings.ContainsAny(res, " =:") {
+		w0 := strings.Fields(line)[0]
+		if w0 == "hash" || w0 == "commit" || w0 == "reopen" || w0 == "dbcommit" || w0 == "snap" || w0 == "commitref" {
+			m.lastRoot = res
+		}
+	}
+	return res
+}
+
+func (m *impl) exec1(line string) string {
 	w := strings.Fields(line)
 	if len(w) == 0 {
 		return "bad-op"
@@ -161,6 +187,107 @@ func (m *impl) exec(line string) string {
 		return "n=" + strconv.Itoa(n) + sb.String()
 	case w[0] == "shape" && len(w) == 1:
 		return shapeOf(m.t)
+	case w[0] == "rlpstr" && len(w) == 2:
+		// storage/rlp encoder on a byte string, and Split of the result followed by junk
+		x, ok := arg(1)
+		if !ok {
+			return "bad-op"
+		}
+		b, err := rlp.EncodeToBytes(x)
+		if err != nil {
+			return "err-other"
+		}
+		return hx.Hex(b)
+	case w[0] == "rlplist" && len(w) >= 1:
+		var items [][]byte
+		for i := 1; i < len(w); i++ {
+			x, ok := arg(i)
+			if !ok {
+				return "bad-op"
+			}
+			items = append(items, x)
+		}
+		b, err := rlp.EncodeToBytes(items)
+		if err != nil {
+			return "err-other"
+		}
+		return hx.Hex(b)
+	case w[0] == "rlpsplit" && len(w) == 2:
+		// storage/rlp raw.go on arbitrary (mostly malformed) bytes
+		x, ok := arg(1)
+		if !ok {
+			return "bad-op"
+		}
+		k, content, rest, err := rlp.Split(x)
+		if err != nil {
+			return "split-error"
+		}
+		n, err2 := rlp.CountValues(x)
+		cnt := "count-error"
+		if err2 == nil {
+			cnt = strconv.Itoa(n)
+		}
+		kind := map[rlp.Kind]string{rlp.Byte: "byte", rlp.String: "string", rlp.List: "list"}[k]
+		return kind + " " + hx.Hex(content) + " " + hx.Hex(rest) + " " + cnt
+	case w[0] == "opendisk" && len(w) == 2:
+		// a blob (usually a damaged node encoding) is put on disk under its hash and opened as a
+		// trie root: node.go decodeNode / decodeShort / decodeFull / decodeRef incl. every error branch
+		x, ok := arg(1)
+		if !ok {
+			return "bad-op"
+		}
+		h := common.BytesToHash(keccak(x))
+		disk, _ := db.NewMemDatabase()
+		disk.Put(h[:], x)
+		res := hx.Guard(func() string {
+			t2, err := trie.NewTrie(h, trie.NewDatabase(disk))
+			if err != nil {
+				return errClass(err)
+			}
+			return shapeOf(t2)
+		})
+		if strings.HasPrefix(res, "PANIC") {
+			return "decode-panic"
+		}
+		return res
+	case w[0] == "dbstate" && len(w) == 1:
+		// the two layers of the NodeDatabase: hashes in the memory cache, keys on disk
+		var mem [][]byte
+		for _, h := range m.triedb.Nodes() {
+			mem = append(mem, append([]byte{}, h[:]...))
+		}
+		return "mem=" + xorDigest(mem) + " disk=" + xorDigest(m.disk.Keys())
+	case w[0] == "node" && len(w) == 2:
+		hb, ok := arg(1)
+		if !ok {
+			return "bad-op"
+		}
+		b, err := m.triedb.Node(common.BytesToHash(hb))
+		if err != nil || b == nil || len(hb) != 32 {
+			return "absent"
+		}
+		return "blob=" + hx.Hex(b)
+	case w[0] == "blob" && len(w) == 2:
+		x, ok := arg(1)
+		if !ok {
+			return "bad-op"
+		}
+		h := common.BytesToHash(keccak(x))
+		m.triedb.InsertBlob(h, x)
+		return hx.Hex(h[:])
+	case w[0] == "commitref" && len(w) == 1:
+		// Trie.Commit with a leaf callback, as the account layer uses it: a 32-byte leaf value is
+		// taken for the root of another trie and referenced from the node that holds the leaf
+		h, err := m.t.Commit(func(leaf []byte, parent common.Hash) error {
+			if len(leaf) == 32 {
+				m.triedb.Reference(common.BytesToHash(leaf), parent)
+			}
+			return nil
+		})
+		if err != nil {
+			return errClass(err)
+		}
+		return hx.Hex(h[:])
 	case w[0] == "fork" && len(w) == 1:
 		// retain a VALUE COPY of the trie object: it shares every node with the working trie, so it
 		// keeps its content only if insert/delete/tryGet/hash never modify a reachable node in place
@@ -272,7 +399,25 @@ func main() {
 	defer out.close()
 	thorough := a["tier"] == "thorough"
 	m := newImpl()
+	dr := hx.NewRng(hx.SeedFromEnv() ^ 0xd15cb10b)
 	do := func(line string) string {
+		// ops that refer to the last reported root are made self-contained before they are recorded
+		lr := m.lastRoot
+		if lr == "" {
+			lr = strings.Repeat("11", 32)
+		}
+		if strings.HasPrefix(line, "updroot ") {
+			line = "upd " + strings.TrimPrefix(line, "updroot ") + " " + lr
+		} else if line == "noderoot" {
+			line = "node " + lr
+		} else if line == "opendiskmut" {
+			// the blob of the last reported root, damaged
+			var blob []byte
+			if hb, err := hx.UnHex(lr); err == nil {
+				blob, _ = m.triedb.Node(common.BytesToHash(hb))
+			}
+			line = "opendisk " + hx.Hex(damage(dr, blob))
+		}
 		res := hx.Guard(func() string { return m.exec(line) })
 		out.emit(line, res)
 		return res
@@ -314,6 +459,45 @@ func main() {
 	}
 	dist["keccak"] = nk + 22
 
+	// 2b. RLP: the repository's encoder and raw splitter against the model's, directly
+	nr := hx.ArgInt(a, "rlp", 1500)
+	for i := 0; i < nr; i++ {
+		n := r.Pick(0, 1, 1, 2, 31, 32, 33, 54, 55, 56, 57, 255, 256, 257, 1000)
+		x := r.Bytes(n)
+		if n == 1 && r.Bool() {
+			x[0] = byte(r.Pick(0, 1, 0x7e, 0x7f, 0x80, 0x81, 0xff))
+		}
+		switch r.Intn(4) {
+		case 0:
+			do("rlpstr " + hx.Hex(x))
+		case 1:
+			l := "rlplist"
+			for j, m := 0, r.Intn(5); j < m; j++ {
+				l += " " + hx.Hex(r.Bytes(r.Pick(0, 1, 2, 20, 55, 56, 60)))
+			}
+			do(l)
+		default:
+			// a valid item followed by junk, or a mutated / truncated one, or noise
+			enc, _ := rlp.EncodeToBytes(x)
+			switch r.Intn(5) {
+			case 0:
+				enc = append(enc, r.Bytes(r.Intn(4))...)
+			case 1:
+				if len(enc) > 0 {
+					enc = enc[:r.Intn(len(enc))]
+				}
+			case 2:
+				if len(enc) > 0 {
+					enc[0] = byte(r.Pick(0x00, 0x7f, 0x80, 0x81, 0xb7, 0xb8, 0xb9, 0xbf, 0xc0, 0xc1, 0xf7, 0xf8, 0xf9, 0xff))
+				}
+			case 3:
+				enc = r.Bytes(1 + r.Intn(12))
+			}
+			do("rlpsplit " + hx.Hex(enc))
+		}
+	}
+	dist["rlp-direct"] = nr
+
 	// 3. malformed protocol lines: the driver must answer bad-op, never default
 	for _, l := range []string{"upd zz 01", "upd 01", "get", "get 0", "del 0g", "iter", "cachelimit 65536", "cachelimit x", "hash 1", "frob", "upd 01 02 03", "keccak 1"} {
 		do(l)
@@ -345,6 +529,7 @@ func main() {
 				}
 			}
 			do("shape")
+			do("dbstate")
 			dist["exhaustive-seqs"]++
 		}
 		if depth == 0 {
@@ -396,6 +581,11 @@ func main() {
 		do("iter -")
 		for _, k := range g.pool {
 			do("get " + hx.Hex(k))
+		}
+		do("dbstate")
+		do("noderoot")
+		for i := 0; i < 12; i++ {
+			do("opendiskmut")
 		}
 		for i := 0; i < g.nsnaps; i++ {
 			do("shash " + strconv.Itoa(i))
